@@ -25,11 +25,11 @@ def bounds_of(fn, mod):
         hi = None
         lo = 0
         for p in pres:
-            m = re.search(r'(\d+)\s*<=\s*%s\s*<=\s*(\w+\([^)]*\)|[^ )]+)' % name, p)
+            m = re.search(r'(\d+)\s*<=\s*%s\s*<=\s*(\(.*?\)(?= and|$)|\w+\([^)]*\)|[^ )]+)' % name, p)
             if m:
                 lo, hi = int(m.group(1)), eval(m.group(2), vars(mod)) + 1
                 break
-            m = re.search(r'(\d+)\s*<=\s*%s\s*<\s*(\w+\([^)]*\)|[^ )]+)' % name, p)
+            m = re.search(r'(\d+)\s*<=\s*%s\s*<\s*(\(.*?\)(?= and|$)|\w+\([^)]*\)|[^ )]+)' % name, p)
             if m:
                 lo, hi = int(m.group(1)), eval(m.group(2), vars(mod))
                 break
